@@ -448,6 +448,7 @@ class Run:
         self.stats = {}
         self.prng = random.Random(1000003 * ctx.seed + 17)    # permutation experiments (independent of op generation)
         self.perm_reqs = []       # (model 'accepts' request, what SQLite said, context)
+        self.delq = []            # obj.delete() calls recorded for the delete-queue model
         self.planned = []         # ops of a multi-op pattern (reference cycle) still to be issued
         self.pk_used = set()      # (entity, target tag) pairs already used as a reference primary key
         self.byproducts = []      # op-level crashes of Pony that are outside C16 (reported in the notes)
@@ -536,7 +537,7 @@ class Run:
                 # reading an attribute makes it part of the optimistic check of a later UPDATE
                 if not w.ref_attrs[e]: continue
                 return ['read', t, rng.choice(w.ref_attrs[e])[0]]
-            if r < 0.81: return ['del', t]
+            if r < 0.81: return [rng.choice(['del', 'delq']), t]
             if r < 0.88:
                 if not w.m2m_attrs[e]: continue
                 name, te = rng.choice(w.m2m_attrs[e]); cands = w.alive(te)
@@ -585,6 +586,11 @@ class Run:
             o = w.get(op[1])
             if o is None: raise LookupError('stale target')
             o.delete()
+        elif k == 'delq':
+            # the same delete, with the whole database loaded first and the call compared with the delete-queue model
+            o = w.get(op[1])
+            if o is None: raise LookupError('stale target')
+            return self.checked_delete(o)
         elif k in ('madd', 'mrem'):
             _, t, name, t2 = op
             o = w.get(t); o2 = w.get(t2)
@@ -596,6 +602,56 @@ class Run:
             return self.flush_point('oflush', o)
         elif k == 'flush':
             return self.flush_point('flush', None)
+        return True
+
+    # ---- obj.delete() against the delete-queue model (Model/DeleteQueue.lean over C15's Model/Cascade.lean)
+    def checked_delete(self, o):
+        """load the whole database into the session, abstract schema + store, run the real delete, record which objects
+        became marked_to_delete and in which queue order; compared with the model's death order in check_delq"""
+        w = self.w
+        cache = w.db._get_cache()
+        self.before_query()
+        for E in w.E: E.select()[:]
+        for x in list(cache.objects):
+            if x._status_ in DEAD: continue
+            for attr in x.__class__._attrs_:
+                if not attr.reverse: continue
+                if attr.is_collection: len(getattr(x, attr.name))        # loads the collection
+                elif attr not in x._vals_: getattr(x, attr.name)
+        if cache.modified: pass                                            # loading never modifies
+        rels = []; aid = {}
+        for E in w.E:
+            for attr in E._attrs_:
+                if attr.reverse and attr not in aid and attr.reverse is not attr:
+                    aid[attr] = (len(rels), False); aid[attr.reverse] = (len(rels), True); rels.append((attr, attr.reverse))
+        def side(a): return {'ent': w.E.index(a.entity), 'coll': bool(a.is_collection), 'req': bool(a.is_required),
+                             'casc': bool(a.cascade_delete), 'col': bool(a.columns) and not a.is_collection}
+        schema = [{'a': side(a), 'b': side(b)} for a, b in rels]
+        classes = [[list(aid[a]) for a in E._attrs_ if a.reverse] for E in w.E]
+        objs = sorted(cache.objects, key=lambda x: (w.E.index(x.__class__), x._vals_.get(x.__class__.tag, 0), repr(rawpk(x))))
+        num = {x: k for k, x in enumerate(objs)}
+        oj = []
+        for x in objs:
+            refs = []; colls = []
+            for attr in x.__class__._attrs_:
+                if not attr.reverse: continue
+                v = x._vals_.get(attr)
+                if attr.is_collection:
+                    colls.append(list(aid[attr]) + [sorted(num[m] for m in (v or ()) if m in num)])
+                else:
+                    refs.append(list(aid[attr]) + [num[v] if isinstance(v, core.Entity) and v in num else None])
+            oj.append({'ent': w.E.index(x.__class__), 'alive': x._status_ not in DEAD, 'refs': refs, 'colls': colls})
+        before = {x: x._status_ for x in objs}
+        multi = any(len(c[2]) > 1 for j in oj for c in j['colls'])
+        err = None
+        try: o.delete()
+        except Exception as e: err = e
+        died = [x for x in objs if before[x] not in DEAD and x._status_ in DEAD]
+        queued = [num[x] for x in cache.objects_to_save if x is not None and x in num and x._status_ == 'marked_to_delete' and before[x] not in DEAD]
+        self.delq.append({'request': {'op': 'delq', 'schema': schema, 'classes': classes, 'objs': oj, 'deletes': [num[o]]},
+                          'err': type(err).__name__ if err is not None else None, 'died': sorted(num[x] for x in died),
+                          'queued': queued, 'created': sorted(num[x] for x in objs if before[x] == 'created'), 'multi': multi})
+        if err is not None: raise err
         return True
 
     # ---- one flush point: abstraction, real flush with trace, oracle
@@ -909,6 +965,38 @@ def check_records(ctx, runs):
         if rec['cyclic'] != (model.get('error') == 'UnresolvableCyclicDependency'):
             ctx.divergence('model verdict and the engine\'s cycle analysis disagree', {'request': rec['request']}, model=model, impl={'cyclic': rec['cyclic']})
 
+def check_delq(ctx, runs):
+    """every recorded obj.delete(): the model's death order (deleteQ over C15's Cascade.delete) against the objects the real
+    _delete_ killed and the order in which it appended them to objects_to_save"""
+    if not ctx.driver.ok: return
+    recs = [(r, d) for r in runs for d in r.delq]
+    outs = ctx.driver('C16', [d['request'] for r, d in recs])
+    for (r, d), out in zip(recs, outs):
+        ctx.case(['delq', d['request']['deletes'], len(d['request']['objs'])], nontrivial=len(d['died']) > 1, kind='delete-queue')
+        if 'order' not in out:
+            ctx.divergence('delete-queue model: driver error', d['request'], model=out, impl=None); continue
+        m_err = out['errs'][0]
+        if (m_err is None) != (d['err'] is None) or (m_err is not None and m_err != d['err'] and not (m_err == 'RecursionError' and d['err'] == 'RecursionError')):
+            ctx.count('delq:error-differs:%s/%s' % (m_err, d['err']))
+            if m_err in (None,) or d['err'] is None:
+                ctx.divergence('delete-queue model and real obj.delete() disagree on success', {'request': d['request'], 'history': r.hist, 'spec': r.spec}, model=m_err, impl=d['err'])
+            continue
+        if d['err'] is not None:
+            ctx.count('delq:refused:' + d['err']); continue
+        ctx.count('delq:deaths:%d' % min(len(d['died']), 6))
+        if sorted(out['order']) != d['died']:
+            ctx.divergence('delete-queue model kills other objects than the real obj.delete()', {'request': d['request'], 'history': r.hist, 'spec': r.spec}, model=out['order'], impl=d['died'])
+            continue
+        m_queue = [x for x in out['order'] if x not in d['created']]      # created objects are cancelled, not queued
+        if m_queue != d['queued']:
+            if d['multi'] and sorted(m_queue) == sorted(d['queued']):
+                ctx.count('delq:order-differs-only-by-set-iteration-order')
+            else:
+                ctx.divergence('death order of the delete-queue model differs from the order in objects_to_save', {'request': d['request'], 'history': r.hist, 'spec': r.spec}, model=m_queue, impl=d['queued'])
+        else:
+            ctx.count('delq:order-agrees' + ('(>1 queued)' if len(m_queue) > 1 else ''))
+        ctx.count('delq:pony-ddl-%s,strict-%s' % ('accepts' if out['pony_ddl_accepts'] else 'REFUSES', 'accepts' if out['strict_accepts'] else 'refuses'))
+
 def check_fk_model(ctx, runs):
     """(a) the model's own statement list is accepted by the FK database model whenever the hypotheses of C16_fk_accepts
     hold on the real session (what the theorem says); (b) `applyWrites` agrees with SQLite on permuted statement lists"""
@@ -1032,6 +1120,7 @@ def run(ctx):
     runs += explore(ctx, True, ctx.scale(120, 2000))
     check_records(ctx, runs)
     check_fk_model(ctx, runs)
+    check_delq(ctx, runs)
 
 def replay(ctx, data):
     inp = data.get('input') or {}
@@ -1042,6 +1131,6 @@ def replay(ctx, data):
         for what, detail in r.problems:
             if what.startswith('infrastructure'): raise RuntimeError(what)
             report(ctx, inp['spec'], inp['history'], strict, what, detail, shrunk=True)
-        check_records(ctx, [r]); check_fk_model(ctx, [r])
+        check_records(ctx, [r]); check_fk_model(ctx, [r]); check_delq(ctx, [r])
     else:
         run(ctx)
